@@ -11,7 +11,7 @@ import (
 // point to. The returned tables are the external object tables by namespace.
 func GenNamespaced(r *wk.Rand) (*Shape, map[string][]*Shape) {
 	cfg := Full()
-	cfg.Recursion, cfg.Structs, cfg.TypedEnum, cfg.WeirdBounds, cfg.GoodDefaults, cfg.Disabled = false, false, false, false, true, false
+	cfg.Recursion, cfg.Structs, cfg.TypedEnum, cfg.WeirdBounds, cfg.GoodDefaults, cfg.Disabled = false, false, false, false, true, true
 	n := 0
 	c := &ctx{cfg: cfg, r: r, counter: &n}
 	s := c.genScope(0, true)
